@@ -215,7 +215,7 @@ func cmdCheck(args []string) int {
 	// verify: generate the obligations of one function; when the loop invariants name a local the function no longer
 	// has (a harmless rename), try the function's other locals in its place (rebind.go)
 	verify := func(fc *FuncContract) *FuncResult {
-		res := e.verifyFunc(fc)
+		res := e.verifyFuncAlias(fc, nil)
 		if res.Status == "ok" || res.UnknownIdent == "" {
 			return res
 		}
@@ -292,23 +292,80 @@ func cmdCheck(args []string) int {
 		}
 	}
 	var obls, reachObls, sweepObls []*Obligation
-	for _, res := range results {
-		for _, o := range res.Obligations {
-			if len(o.Tags) > 0 && !hasTag(o.Tags, *prop) {
-				continue // belongs to another property only
+	collect := func() {
+		obls, reachObls, sweepObls = nil, nil, nil
+		for _, res := range results {
+			for _, o := range res.Obligations {
+				if len(o.Tags) > 0 && !hasTag(o.Tags, *prop) {
+					continue // belongs to another property only
+				}
+				if o.Kind == "reach" {
+					reachObls = append(reachObls, o)
+					continue
+				}
+				if !o.Claimed {
+					sweepObls = append(sweepObls, o)
+					continue
+				}
+				obls = append(obls, o)
 			}
-			if o.Kind == "reach" {
-				reachObls = append(reachObls, o)
-				continue
-			}
-			if !o.Claimed {
-				sweepObls = append(sweepObls, o)
-				continue
-			}
-			obls = append(obls, o)
 		}
 	}
+	collect()
 	solveAll(obls, tmp, timeout, 16, agree)
+	// a function whose loops were moved into (or out of) helpers without a contract: when it fails with the loop clauses
+	// attached by ordinal, attach them in program order and try again (remap.go); kept only if everything discharges
+	oblOK := func(o *Obligation) bool {
+		return o.Kind == "known-finding" || o.Result == o.Expect || (o.Expect == "sat" && (o.Result == "unknown" || o.Result == "timeout"))
+	}
+	for i, res := range results {
+		if res.FC == nil || res.Remapped {
+			continue
+		}
+		failing := res.Status != "ok"
+		for _, o := range res.Obligations {
+			if (len(o.Tags) > 0 && !hasTag(o.Tags, *prop)) || o.Kind == "reach" || !o.Claimed {
+				continue
+			}
+			if !oblOK(o) {
+				failing = true
+			}
+		}
+		if !failing || !e.loopsMoved(res.FC) {
+			continue
+		}
+		e.remapLoops[res.FC] = true
+		alt := verify(res.FC)
+		good := alt.Status == "ok"
+		if os.Getenv("FVC_DEBUG_REBIND") != "" {
+			fmt.Fprintf(os.Stderr, "remap %s: status=%s err=%s\n", res.FC.Key, alt.Status, truncate(alt.Error, 400))
+		}
+		if good {
+			var os2 []*Obligation
+			for _, o := range alt.Obligations {
+				if (len(o.Tags) > 0 && !hasTag(o.Tags, *prop)) || o.Kind == "reach" || !o.Claimed {
+					continue
+				}
+				os2 = append(os2, o)
+			}
+			solveAll(os2, tmp, timeout, 16, false)
+			for _, o := range os2 {
+				if !oblOK(o) {
+					good = false
+					if os.Getenv("FVC_DEBUG_REBIND") != "" {
+						fmt.Fprintf(os.Stderr, "remap %s: %s -> %s\n", res.FC.Key, o.Name, o.Result)
+					}
+				}
+			}
+		}
+		if good {
+			alt.Notes = append(alt.Notes, res.FC.Key+": the function's loops no longer match the ordinals of its loop clauses (a loop was moved into or out of a helper without a contract); the clauses were attached in program order across the function and its inlined helpers (proof hints only; requires/ensures are unaffected) and every obligation was discharged")
+			results[i] = alt
+		} else {
+			delete(e.remapLoops, res.FC)
+		}
+	}
+	collect()
 	var unreachable, sweepOpen []string
 	sweepDone := 0
 	if *tier == "thorough" {
